@@ -47,6 +47,8 @@ def step (s : St) (line : String) : St × String :=
       | some b =>
         match op with
         | "su" => finish s (sendRaw s .user b) "ok" []
+        | "sf" =>       -- xmpp_send_raw_string("%s", text): same queueing, text is a C string
+          if b.contains 0 then (s, "= bad-op") else finish s (sendRaw s .user b) "ok" []
         | "sl" => finish s (sendRaw s .strophe b) "ok" []
         | "ss" => finish s (sendRaw s .smStrophe b) "ok" []
         | _ => (s, "= bad-op")
